@@ -171,9 +171,20 @@ func c05Handle(st *c05State, marker string, rq interface{}, reply func(r *res.Re
 }
 
 func c05Register(s *res.Service, specs []c05HandlerSpec, st *c05State) {
+	// option values made once and used, as first call/auth option, for every pattern that
+	// has methods of its own (an application's list of common options): what one pattern
+	// registers next to them stays that pattern's
+	sharedCall := res.Call("zzshared", func(r res.CallRequest) { r.OK("shared") })
+	sharedAuth := res.Auth("zzshared", func(r res.AuthRequest) { r.OK("shared") })
 	for _, sp := range specs {
 		sp := sp
 		var opts []res.Option
+		if len(sp.Call) > 0 {
+			opts = append(opts, sharedCall)
+		}
+		if len(sp.Auth) > 0 {
+			opts = append(opts, sharedAuth)
+		}
 		mk := func(kind string) string { return sp.Pattern + "|" + kind }
 		if sp.Access {
 			m := mk("access")
